@@ -203,6 +203,14 @@ FUNCS += [
     dict(id='VisitBorrowedStr', file='src/pointer.rs', fn='visit_borrowed_str', impl=r"impl<'a> Visitor<'a> for PointerVisitor", lean='PointerVisitor.visit_borrowed_str',
          params=[('self', 'fmtr'), ('v', 'bytes')], ret='res', rtype='Res DoorErr Bytes', imports=['PointerParse'], serde=True, door=True),
 ]
+# the `is_*` predicates (`matches!(self, Variant { .. })`)
+for _f, _ty, _ns, _names in (('src/resolve.rs', 'resolveerr', 'resolve', ['is_unreachable', 'is_not_found', 'is_out_of_bounds', 'is_failed_to_parse_index']),
+                            ('src/assign.rs', 'assignerr', 'assign', ['is_out_of_bounds', 'is_failed_to_parse_index']),
+                            ('src/pointer.rs', 'parseerror', 'ParseError', ['is_no_leading_slash', 'is_invalid_encoding'])):
+    for _n in _names:
+        FUNCS.append(dict(id=_ns.capitalize().replace('Parseerror', 'ParseErr') + 'Err' * (_ns != 'ParseError') + ''.join(w.capitalize() for w in _n.split('_')), file=_f, fn=_n,
+                          impl=r"impl Error \{" if _ns != 'ParseError' else r"impl ParseError \{", lean=(f'{_ns}.Error.{_n}' if _ns != 'ParseError' else f'ParseError.{_n}'),
+                          params=[('self', 'errself:' + _ty)], ret='pure', rtype='Bool'))
 PE_IMPL = r"impl ParseError \{"
 FUNCS += [
     dict(id='ParseErrOffset', file='src/pointer.rs', fn='offset', impl=PE_IMPL, lean='ParseError.offset', params=[('self', 'errself:parseerror')], ret='pure', rtype='Nat'),
@@ -728,6 +736,11 @@ class Fn:
                 return self.E(fields['source'], env, ctx, lambda sv, _: self.E(fields['offset'], env, ctx,
                               lambda ov, __: k(f"(ParseIndexError.invalidCharacter {sv} {ov})", 'pie')))
             raise Unsupported("struct literal " + ps)
+        if t == 'matchesm':
+            def after_m(a, ta):
+                code = self.compile_match([([e[2]], None, True), ([('pwild',)], None, False)], [(a, ta)], env, lambda pl, env2: 'true' if pl else 'false')
+                return k(code, 'bool')
+            return self.E(e[1], env, ctx, after_m)
         if t == 'writefmt':
             if self.retkind != 'fmt': raise Unsupported("write! outside a Display impl")
             fmt = bytes(e[2]); fargs = e[3]
